@@ -53,6 +53,8 @@ def compute_domains_affine_eq(domains: NDArray, parameters: NDArray) -> int:
         else:
             domain_sum_min -= c * domains[i, MIN]
             domain_sum_max -= c * domains[i, MAX]
+    if domain_sum_min > 0 or domain_sum_max < 0:  # no variable with a non null coefficient could detect it
+        return PROP_INCONSISTENCY
     old_domains = np.copy(domains)
     for i, c in enumerate(parameters[:-1]):
         if c != 0:
